@@ -4,6 +4,8 @@ from vlib import common as C
 from vlib.diff import Case, differential
 
 LEVEL = "proof"
+# C functions this check's models mirror (source-text fingerprints are recorded in the evidence, see translate/funchash.py)
+MODELLED_FUNCS = {'src/json/iwjson.c': ['_jbl_from_node_impl', '_jbl_node_from_binn_impl', '_jbl_ptr_pool', 'jbl_at2', 'jbn_at2'], 'src/json/iwjser.c': ['jbn_clone'], 'src/json/iwbinn.c': ['AddValue', 'GetValue', 'binn_save_header', 'SearchForKey', 'AdvanceDataPos']}
 MANIFEST = dict(
     level="proof",
     text=("Lean 4 theorems over executable models of the binn writer/reader as used by iwjson.c (_jbl_from_node_impl, binn_save_header, "
